@@ -467,6 +467,7 @@ def _load():
     reg('LP.subsample_genotypes_seeded', _lp_subsample, group='lowpass')
     reg('ORACLE.errstate_scope', _errstate_scope, group='oracle')
     reg('demes_export', _demes_export, group='demes')
+    reg('ts_scope', _ts_scope, fresh=True, group='integrate')
     # ---- interference (E1, E4): results never compared
     reg('E1.churn', _churn, no_compare=True, group='interference')
     reg('E4.np_seed', lambda k: np.random.seed(k), no_compare=True, group='interference')
@@ -626,6 +627,19 @@ def _demes_export(pts, variant, Nref, ns):
         # same in the pristine run; the exported graph is still compared
         fs = 'ValueError'
     return {'names': names, 'leaves': leaves, 'demes': summary, 'migrations': mig, 'pulses': pul, 'fs': fs}
+
+
+def _ts_scope(pts_ref, factor, phi, xx, T, *nus, **kw):
+    """the documented timestep knob used the way its docstring says (set_timescale_factor before integrating), with the previous
+    setting put back afterwards: a self-contained computation, so it must not depend on what ran under another setting"""
+    import dadi
+    old = dadi.Integration.timescale_factor
+    try:
+        dadi.Integration.set_timescale_factor(pts_ref, factor)
+        fn = {2: dadi.Integration.one_pop, 3: dadi.Integration.two_pops, 4: dadi.Integration.three_pops}[phi.ndim + 1]
+        return fn(phi, xx, T, *nus, **kw)
+    finally:
+        dadi.Integration.timescale_factor = old
 
 
 def _mk_data_dict(seed, nsnp, pops, nchrom, nconfig=4, chroms=('chr1', 'chr2', 'scaffold_10'), sparse=0):
